@@ -147,6 +147,7 @@ func (s *SerialDB) Put(key, val []byte) error {
 	if err != nil {
 		return err
 	}
+	verifPoint("serial.put.afterBatchPut")
 
 	return s.updateBatchWithIncrement()
 }
@@ -169,6 +170,7 @@ func (s *SerialDB) Get(key []byte) ([]byte, error) {
 	if data != nil {
 		return data, nil
 	}
+	verifPoint("serial.get.beforeDbRead")
 
 	ch := make(chan *pairResult)
 	req := &getAct{
@@ -248,6 +250,7 @@ func (s *SerialDB) putBatch() error {
 	s.sizeBatch = 0
 	s.batch = NewBatch()
 	s.mutBatch.Unlock()
+	verifPoint("serial.putBatch.afterSwap")
 
 	ch := make(chan error)
 	req := &putBatchAct{
